@@ -10,13 +10,17 @@
 (*     false), S = @skip(if: true), i = @include(if: true), t = the         *)
 (*     repeatable custom directive @tag), directives on fragments,          *)
 (*   - named fragments spread more than once (`reuse` of an already closed  *)
-(*     spread: no cycles by construction), fragments inside fragments.      *)
+(*     spread: no cycles by construction; at the same or at a different     *)
+(*     nesting depth, before or after a deeper/shallower placement, also    *)
+(*     from inside another fragment), fragments inside fragments.           *)
 (* Node: [d, k, name, alias, on, dirs, arg, ref].  TLC's breadth-first      *)
 (* search visits every such document with at most MaxNodes nodes once.      *)
 (***************************************************************************)
 EXTENDS Naturals, Sequences, FiniteSets, TLC, Json, IOUtils
 
-CONSTANTS MaxNodes, MaxDirs, MaxAlias, MaxArgs, MaxDecor, Root
+CONSTANTS MaxNodes, MaxDirs, MaxAlias, MaxArgs, MaxDecor, Root,
+          Focus,          \* {} = all fields and __typename; otherwise only the fields named here (deeper bounds on a slice)
+          OnlyDeepReuse   \* TRUE: emit only documents that spread one fragment at two different nesting depths
 TS == JsonDeserialize(IOEnv.SCHEMA)
 VARIABLES doc, open, ndir, nalias, nargs
 vars == <<doc, open, ndir, nalias, nargs>>
@@ -32,7 +36,9 @@ Possible(t) == CASE Kind(t) = "OBJECT" -> {t}
                  [] Kind(t) = "UNION" -> {o \in Objects : InSeq(o, TS.types[t].members)}
                  [] OTHER -> {}
 Composite(t) == Kind(t) \in {"OBJECT", "INTERFACE", "UNION"}
-GenFields(t) == IF Kind(t) \in {"OBJECT", "INTERFACE"} THEN {f \in DOMAIN TS.types[t].fields : TS.types[t].fields[f].gen} ELSE {}
+GenFields(t) == IF Kind(t) \in {"OBJECT", "INTERFACE"}
+                THEN {f \in DOMAIN TS.types[t].fields : TS.types[t].fields[f].gen /\ (Focus = {} \/ f \in Focus)} ELSE {}
+Typename == IF Focus = {} THEN {"__typename"} ELSE {}
 \* type conditions that may be spread inside static type t (5.5.2.3 possible fragment spreads)
 Conds(t) == {c \in Types : Composite(c) /\ Possible(c) \cap Possible(t) # {} /\ c # Root}
 
@@ -58,7 +64,7 @@ ArgChoice(t, f) == IF HasArgs(t, f) /\ nargs < MaxArgs /\ Decor < MaxDecor THEN 
 
 AddField ==
   /\ Len(doc) < MaxNodes
-  /\ \E f \in GenFields(Top.type) \cup {"__typename"}, al \in AliasChoice, dr \in DirChoice(FieldDirs) :
+  /\ \E f \in GenFields(Top.type) \cup Typename, al \in AliasChoice, dr \in DirChoice(FieldDirs) :
      \E ar \in ArgChoice(Top.type, f) :
        /\ (IF al = "" THEN 0 ELSE 1) + (IF dr[2] = 0 THEN 0 ELSE 1) + (IF ar = "" THEN 0 ELSE 1) + Decor <= MaxDecor
        /\ LET t == IF f = "__typename" THEN "String" ELSE Named(TS.types[Top.type].fields[f].ty)
@@ -99,5 +105,8 @@ Spec == Init /\ [][Next]_vars
 DepthOK == \A i \in 1..Len(doc) : /\ doc[i].d >= 1 /\ (i > 1 => doc[i].d <= doc[i - 1].d + 1)
                                   /\ (doc[i].k = "reuse" => doc[i].ref < i /\ doc[doc[i].ref].k = "spread")
 Complete == Len(open) = 1 /\ open[1].count > 0
-Emit == Complete => PrintT(<<"REPLAY", ToJson(doc)>>)
+\* the same fragment spread at two different nesting depths (in either order, possibly from inside another fragment):
+\* a walker that remembers fragments instead of inlining them measures only the first placement
+DeepReuse == \E i \in 1..Len(doc) : doc[i].k = "reuse" /\ doc[i].d # doc[doc[i].ref].d
+Emit == (Complete /\ (OnlyDeepReuse => DeepReuse)) => PrintT(<<"REPLAY", ToJson(doc)>>)
 =============================================================================
